@@ -469,7 +469,11 @@ int __tsan_atomic64_compare_exchange_weak(volatile long *p, long *c, long v, int
 
 int omp_get_thread_num(void) { return (active && cur >= 0 && !callers_mode) ? cur : 0; }
 int omp_get_num_threads(void) { return (active && !callers_mode) ? nthr : 1; }
-int omp_get_max_threads(void) { return nthr_cfg; }
+/* environment answer: the runtime may grant a team SMALLER than the maximum it reports (OMP_THREAD_LIMIT, OMP_DYNAMIC, nested
+   regions): the driver can make omp_get_max_threads() report more threads than the team it runs */
+static int max_threads_reported = 0;
+void vrt_report_max_threads(int m) { max_threads_reported = m; }
+int omp_get_max_threads(void) { return max_threads_reported > nthr_cfg ? max_threads_reported : nthr_cfg; }
 void omp_set_num_threads(int n) { (void)n; /* the driver decides */ }
 int omp_in_parallel(void) { return active && !callers_mode; }
 
